@@ -455,6 +455,13 @@ def r15_9(run, model):
                        "next to a v1 Lib.core; `expects interface_hash ... (rebuild Main)` for ever")
 
 
+def r15_10(run, model):
+    from rules import c13 as _c13
+    cx = _c13.Ctx(run, model)
+    _c13.r13_5(run, cx)
+    _c13.file_identity_order(run, model, "R15.10")
+
+
 def r15_8(run, model):
     from rules import c13 as _c13
     _c13.r13_4(run, _c13.Ctx(run, model))
@@ -473,6 +480,8 @@ def run(run, model):
     from rules import c13 as _c13
     run.try_rule(r15_8, model)
     run.try_rule(r15_9, model)
+    # the file order decides DefIds and export order, both hashed: the inputs are sorted and de-duplicated by identity (shared with C13 R13.5 / R13.7)
+    run.try_rule(r15_10, model)
     from rules import c03
     run.rule("R15.7", "a changed trait bound changes the interface hash: the hashed exports are FnSchemes, so the bounds of a generic item have "
                       "to be part of FnScheme (shared with C03 R03.10) - today `fn show_all[T: Show]` and `fn show_all[T: Debug]` export the "
